@@ -58,6 +58,23 @@ def idempotence(cls, obj, what, expected_type):
     return fails, text
 
 
+# compose sections of manifests: these versions carry date, type and respin explicitly, so they are facts of the document
+# even when the (free-form) compose ID spells something else
+OLD_COMPOSES = [{"id": "Fedora-22-20150522.0", "type": "production", "date": "20150522", "respin": 0},
+                {"id": "Fedora-22-20150522.0", "type": "test", "date": "20150523", "respin": 3},
+                {"id": "Snap-20240101-20240315.n.2", "type": "nightly", "date": "20240315", "respin": 2, "label": "RC-1.2"}]
+
+
+def compose_facts(what, got, comp):
+    fails = []
+    for k in ("id", "type", "date", "respin"):
+        if getattr(got, k) != comp[k]:
+            fails.append("%s: compose.%s: document %r, upgraded object %r" % (what, k, comp[k], getattr(got, k)))
+    if (got.label or None) != comp.get("label"):
+        fails.append("%s: compose.label: document %r, upgraded object %r" % (what, comp.get("label"), got.label))
+    return fails
+
+
 # ------------------------------------------------------------------ composeinfo
 
 def eval_composeinfo(case):
@@ -98,9 +115,16 @@ def eval_composeinfo(case):
             if "release" in v:
                 v["product"] = v.pop("release")
     if has(steps, "drop", "compose/date"):
+        idform = obj["sec"].get("idform", "derived")
+        if idform == "nodash":
+            return ["rejected"] if case.get("probe") else []     # these versions derive the facts from a conventional ID: not expressible
         pay["compose"].pop("date", None)
         pay["compose"].pop("respin", None)
         pay["compose"]["type"] = "production" if pay["compose"]["type"] != "production" else "test"     # stale: the id decides
+        if idform == "othertype":
+            # what the ID spells is what such a document says
+            exp.compose.type = "production" if obj["sec"]["ctype"] == "nightly" else "nightly"
+            exp.compose.respin = ci_adapter.RESPIN[obj["sec"]["respin"]] + 1
     old = ComposeInfo()
     try:
         old.loads(json.dumps(doc))
@@ -150,8 +174,8 @@ def eval_images(case):
                 e["subvariant"] = ""
             images.setdefault(v, {}).setdefault(a, []).append(d)
             exp.setdefault((v, a), {})[f["path"]] = e
-    doc = {"header": {"version": VERSTR[ver], "type": "productmd.images"},
-           "payload": {"compose": {"id": "Fedora-22-20150522.0", "type": "production", "date": "20150522", "respin": 0}, "images": images}}
+    comp = OLD_COMPOSES[case.get("rot", 0) % len(OLD_COMPOSES)]
+    doc = {"header": {"version": VERSTR[ver], "type": "productmd.images"}, "payload": {"compose": dict(comp), "images": images}}
     if has(steps, "drop", "header/type"):
         del doc["header"]["type"]
     old = Images()
@@ -161,7 +185,7 @@ def eval_images(case):
         return ["rejected"] if case.get("probe") else ["%s: document of a supported older version rejected: %s: %s" % (what, type(exc).__name__, exc)]
     if case.get("probe"):
         return ["accepted"]
-    fails = []
+    fails = compose_facts(what, old.compose, comp)
     got_cells = {(v, a) for v in old.images for a in old.images[v]}
     if got_cells != set(exp):
         fails.append("%s: cells %s, document has %s" % (what, sorted(got_cells), sorted(exp)))
@@ -209,7 +233,8 @@ def eval_rpms(case):
     steps, ver, flat = case["steps"], case["ver"], case["rpms"]
     exp = rpms_adapter.expected_map(flat, names, arches)
     what = "rpms %s down-converted from %s" % (VERSTR[ver], json.dumps(exp, sort_keys=True)[:300])
-    doc = {"header": {"version": VERSTR[ver], "type": "productmd.rpms"}, "payload": {"compose": dict(rpms_adapter.COMPOSE)}}
+    comp = OLD_COMPOSES[(rot // 2) % len(OLD_COMPOSES)]
+    doc = {"header": {"version": VERSTR[ver], "type": "productmd.rpms"}, "payload": {"compose": dict(comp)}}
     if has(steps, "drop", "header/type"):
         del doc["header"]["type"]
     if has(steps, "layout", "rpms"):
@@ -233,7 +258,7 @@ def eval_rpms(case):
         return ["rejected"] if case.get("probe") else ["%s: document of a supported older version rejected: %s: %s" % (what, type(exc).__name__, exc)]
     if case.get("probe"):
         return ["accepted"]
-    fails = []
+    fails = compose_facts(what, old.compose, comp)
     if old.rpms != exp:
         fails.append("%s: upgraded mapping %s" % (what, json.dumps(old.rpms, sort_keys=True)[:400]))
     f2, _ = idempotence(Rpms, old, what, "productmd.rpms")
@@ -292,6 +317,10 @@ def eval_treeinfo(case):
             fails.append("%s: arch/timestamp %r/%r" % (what, old.tree.arch, old.tree.build_timestamp))
         if old.images.images != t.images.images:
             fails.append("%s: image tables differ" % what)
+        # a pre-productmd file names its platforms only through its image sections
+        if old.tree.platforms != set([t.tree.arch]) | set(t.images.images):
+            fails.append("%s: platforms %s, the document has image tables for %s on a %s tree"
+                         % (what, sorted(old.tree.platforms), sorted(t.images.images), t.tree.arch))
         if (old.media.discnum, old.media.totaldiscs) != (t.media.discnum, t.media.totaldiscs):
             fails.append("%s: media %r/%r" % (what, old.media.discnum, old.media.totaldiscs))
     f2, _ = idempotence(TreeInfo, old, what, "productmd.treeinfo")
@@ -404,7 +433,7 @@ def run(ctx):
     # images (non-unified images only: unified did not exist before 1.2)
     cases = []
     for i, c in enumerate(c02.gen(ctx, 2, 2)):
-        if any(c["pool"][n]["unified"] or n in ("p7", "p8") for cell in c["obj"] for n in cell["imgs"]):
+        if any(c["pool"][n]["unified"] or n in ("p7", "p8", "p9") for cell in c["obj"] for n in cell["imgs"]):
             continue
         for ver in (100, 101):
             cases.append({"obj": c["obj"], "pool": c["pool"], "ver": ver, "steps": rec[("images", ver)], "rot": (i + ctx.seed) % 132})
